@@ -86,6 +86,13 @@ def gen(rng, i, tier):
                 absent=[k for k in OPT if k not in kw], step="Rdelta" if "Rdelta" in kw else "Rpoints" if "Rpoints" in kw else "none")
 
 
+def file_q(case, j):
+    """Q grid of input file j (one case in four: the first file starts at Q = 0 exactly)"""
+    if j == 0 and case["seed"] % 4 == 0:
+        return np.round(np.arange(0.0, 6.0, 0.1), 2)
+    return np.round(np.arange(0.4 + 0.05 * j, 6.0, 0.1), 2)
+
+
 @contextlib.contextmanager
 def workdir(case):
     d = tempfile.mkdtemp(prefix="verif_c19_")
@@ -94,8 +101,10 @@ def workdir(case):
     r = np.random.default_rng(case["seed"])
     names = []
     for j in range(case["nfiles"]):
-        q = np.round(np.arange(0.4 + 0.05 * j, 6.0, 0.1), 2)
-        s = 1 + np.sin(2.2 * q) / (2.2 * q) + r.normal(size=len(q)) * 0.01
+        q = file_q(case, j)
+        with np.errstate(all="ignore"):
+            s = 1 + np.sin(2.2 * q) / (2.2 * q) + r.normal(size=len(q)) * 0.01
+        s[q == 0] = 0.35      # a measured (extrapolated) S(0), not the conventional 1
         if case["seed"] % 3 == 0:
             q, s = q[::-1], s[::-1]      # rows listed from high Q to low Q (time-of-flight order): the same data
         with open(f"in{j}.dat", "w") as f:
@@ -272,9 +281,16 @@ def evaluate(case):
             if k == "Rdelta" and ("Rdelta" in full or "Rpoints" in full):
                 continue
             full.setdefault(k, copy.deepcopy(v))
+        # the documented defaults inside the "Merging" block: S(Q)-level and Q[S(Q)-1]-level scale 1 and offset 0
+        if isinstance(full.get("Merging"), dict):
+            full["Merging"].setdefault("Y", {"Offset": 0.0, "Scale": 1.0})
+            full["Merging"].setdefault("Q[S(Q)-1]", {"Y": {"Offset": 0.0, "Scale": 1.0}})
+            for blk in (full["Merging"]["Y"], full["Merging"]["Q[S(Q)-1]"].setdefault("Y", {})):
+                blk.setdefault("Offset", 0.0)
+                blk.setdefault("Scale", 1.0)
         for j, f in enumerate(full["Files"]):
             # the default of an omitted per-file window bound is the data range of that file
-            qj = np.round(np.arange(0.4 + 0.05 * j, 6.0, 0.1), 2)
+            qj = file_q(case, j)
             f.setdefault("Qmin", float(qj.min()))
             f.setdefault("Qmax", float(qj.max()))
         e2 = run(pystog_cli, full)
